@@ -381,6 +381,32 @@ UnfoldXVerdict(c) ==
            ELSE IF x.r2 # x.r3 THEN <<"C14:after Reset+SetTarget the next document gives a different result than on a new unfolder">>
            ELSE <<>>)
 
+\* ---- kind "alias" (C15) ---------------------------------------------------------------
+(* Region rule (SFAlias): arguments handed over BY VALUE and everything a   *)
+(* consumer stores must live in memory the producer never touches again.    *)
+(* Observed through effects: strings retained by value stay equal to their  *)
+(* copies, and the target projected right after unfolding (snap) equals     *)
+(* the target after all input buffers were overwritten, the same parser and *)
+(* unfolder processed another document, and a garbage collection ran.       *)
+AliasVerdict(c) ==
+  LET x == c.extra IN
+  IF c.outcome # "ok" THEN <<"C15:outcome:" \o c.outcome>>
+  ELSE (IF ~x.kept_ok THEN <<"C15:a string handed over by value changed after the input buffer was reused">> ELSE <<>>)
+       \o (IF x.err = "" /\ x.snap # x.after
+           THEN <<"C15:a stored value changed after input buffers were overwritten and parser/unfolder were reused">> ELSE <<>>)
+
+\* ---- kind "conc" (C19) ------------------------------------------------------------------
+(* Ownership trace: all instances of the run are alive, so equal registry   *)
+(* identities mean a registry shared between instances - the situation in   *)
+(* which SFInstances (Shared = TRUE) has a race in some interleaving,       *)
+(* whatever schedule the run happened to take.                              *)
+ConcVerdict(c) ==
+  LET x == c.extra IN
+  IF c.outcome # "ok" THEN <<"C19:outcome:" \o c.outcome>>
+  ELSE IF x.infra # "" THEN <<"INFRA:" \o x.infra>>
+  ELSE (IF x.mismatches > 0 \/ x.errors > 0 THEN <<"C19:a goroutine obtained a different result than running alone">> ELSE <<>>)
+       \o (IF x.uses_global \/ x.reused_ids > 0 THEN <<"C19:a type registry is shared between instances (ownership violated)">> ELSE <<>>)
+
 \* ---- the trace machine ----------------------------------------------------------
 Verdict(c) ==
   CASE c.kind = "parse" -> ParseVerdict(c)
@@ -395,6 +421,8 @@ Verdict(c) ==
     [] c.kind = "unfold" -> UnfoldVerdict(c)
     [] c.kind = "keycache" -> KeyCacheVerdict(c)
     [] c.kind = "unfoldx" -> UnfoldXVerdict(c)
+    [] c.kind = "alias" -> AliasVerdict(c)
+    [] c.kind = "conc" -> ConcVerdict(c)
     [] OTHER -> <<"INFRA:unknown case kind">>
 
 Init == i = 1 /\ nfail = 0
